@@ -384,6 +384,24 @@ def long_victim_specs():
     return out
 
 
+def key_update_victim_specs():
+    """QUIC victims whose endpoints update their keys (RFC 9001 6), each side initiating once: with every position fault at every
+    packet this damages, deletes or cuts off in particular the first packet of a new key phase - in front of a peer that already follows"""
+    data = lambda d, n, sid=0: {"op": "data", "d": d, "pk": [{"fr": [["stream", sid, n, None, False, True, None]], "gap": 0, "pnl": 0}]}
+    out = []
+    for i, suite in enumerate((0x1301, 0x1303, 0x1302, 0x1304)):
+        steps = [data(0, 30), data(1, 80), {"op": "ku", "d": i % 2}, data(i % 2, 31), data(1 - i % 2, 81), data(i % 2, 32), data(1 - i % 2, 82),
+                 {"op": "ku", "d": 1 - i % 2}, data(1 - i % 2, 83), data(i % 2, 33), data(1 - i % 2, 84), data(i % 2, 34)]
+        victim = {"kind": "quic", "seed": 9500 + i, "suite": suite, "steps": steps, "c_scid_len": [8, 0, 4, 20][i], "s_scid_len": [8, 8, 0, 5][i],
+                  "ep": scenario.default_ep(0, v6=bool(i % 2))}
+        by_t = {"kind": "tls", "seed": 9600 + i, "version": tlsref.TLS13 if i % 2 else tlsref.TLS12, "suite": 0x1301 if i % 2 else 0xC02F,
+                "history": [[0, 10, 0], [1, 20, 0]], "cert_len": 40, "ep": scenario.default_ep(1), "tcp": {"mode": "rec", "syn": False}}
+        by_q = {"kind": "quic", "seed": 9700 + i, "suite": 0x1301, "steps": [data(0, 11), data(1, 21), {"op": "ku", "d": 0}, data(0, 12), data(1, 22)],
+                "ep": scenario.default_ep(2)}
+        out.append({"conns": [victim, by_t, by_q], "order": [0, 1, 0, 2], "tseed": 3 + i, "fseed": 77 + i})
+    return out
+
+
 def hello_specs(tier):
     out = []
     combos = [(0x002F, tlsref.TLS10), (0x009C, tlsref.TLS12), (0x1301, tlsref.TLS13), (0x000A, tlsref.SSL30)]
@@ -608,6 +626,7 @@ def stages(tier):
     quick = tier == "quick"
     return [
         Stage("all-positions", evaluate_positions, strategy=lambda t: base_scenario(small=True), examples=32 if quick else 600, shrink=False),
+        Stage("key-update-victims-all-positions", evaluate_positions, specs=key_update_victim_specs(), chunksize=1),
         Stage("hello-bitflips", evaluate_hello_bits, specs=hello_specs(tier), chunksize=1),
         Stage("aborted-handshakes", evaluate_single, specs=aborted_handshake_specs()),
         Stage("loss-early-in-a-long-flow", evaluate_single, specs=long_victim_specs()),
